@@ -309,6 +309,9 @@ func CountLines(src string) int {
 // property about the emitted code must hold for that output just the same.
 func CompileMaybeLM(src string, o Opts) Result {
 	if o.LineMarkers || hash64(src)%4 != 0 {
+		if !o.LineMarkers && o.Path == "" && hash64(src)%4 == 1 {
+			o.Path = "data/scripts/check.pory" // the path alone (markers off) changes nothing
+		}
 		return Compile(src, o)
 	}
 	o.LineMarkers = true
